@@ -26,7 +26,7 @@ OBDIR = os.path.join(common.WORK, "c03_ob")
 CASEDIR = os.path.join(common.WORK, "c03_cases")
 
 
-def classify(obs, known, modes, tag="ob", timeout=120):
+def classify(obs, known, modes, tag="ob", timeout=400):
     """Compile each obligation alone. modes: list of 'sound'/'refuted' to try per obligation.
     Returns {id: {mode: (ok, tail of output)}}."""
     d = OBDIR      # not coq/Cases: other checks clean that directory concurrently
@@ -41,12 +41,835 @@ def classify(obs, known, modes, tag="ob", timeout=120):
                 fh.write(gen_fold.single_file(ob, known, mode))
             jobs.append((ob["id"], mode, name))
 
-    def one(job):
+    def one(job, tmo=None):
         oid, mode, name = job
-        rc, out = common.sh("timeout %d coqc -Q %s GV %s.v" % (timeout, common.COQ, name), cwd=d, timeout=timeout + 20)
-        return oid, mode, rc == 0, "\n".join(out.splitlines()[-12:])
+        tmo = tmo or timeout
+        rc, out = common.sh("timeout %d coqc -Q %s GV %s.v" % (tmo, common.COQ, name), cwd=d, timeout=tmo + 20)
+        return oid, mode, rc, "\n".join(out.splitlines()[-12:])
     res = {}
-    with cf.ThreadPoolExecutor(max_workers=common.NCPU) as ex:
-        for oid, mode, ok, out in ex.map(one, jobs):
-            res.setdefault(oid, {})[mode] = (ok, out)
+    slow = []
+    with cf.ThreadPoolExecutor(max_workers=max(2, common.NCPU // 2)) as ex:
+        for job, (oid, mode, rc, out) in zip(jobs, ex.map(one, jobs)):
+            if rc == 124:
+                slow.append(job)      # a time-out is not a failed proof: decide it again, alone
+            else:
+                res.setdefault(oid, {})[mode] = (rc == 0, out)
+    for job in slow:
+        oid, mode, rc, out = one(job, 1500)
+        res.setdefault(oid, {})[mode] = (rc == 0, out if rc != 124 else "coqc timed out twice (1500 s)")
     return res
+
+
+# ---------------------------------------------------------------------------------------
+# reference EVM arithmetic in Python: used ONLY to describe replays (expected value, concrete
+# stack on which two blocks differ); the proofs are against coq/Ref/Word.v.
+
+M = 2 ** 256
+H = 2 ** 255
+
+
+def sgn(x):
+    return x if x < H else x - M
+
+
+def _quot(a, b):
+    q = abs(a) // abs(b)
+    return q if (a < 0) == (b < 0) else -q
+
+
+EVM2 = {
+    "ADD": lambda a, b: (a + b) % M, "SUB": lambda a, b: (a - b) % M, "MUL": lambda a, b: (a * b) % M,
+    "DIV": lambda a, b: 0 if b == 0 else a // b,
+    "SDIV": lambda a, b: 0 if b == 0 else _quot(sgn(a), sgn(b)) % M,
+    "MOD": lambda a, b: 0 if b == 0 else a % b,
+    "SMOD": lambda a, b: 0 if b == 0 else (sgn(a) - sgn(b) * _quot(sgn(a), sgn(b))) % M,
+    "EXP": lambda a, b: pow(a, b, M),
+    "LT": lambda a, b: int(a < b), "GT": lambda a, b: int(a > b),
+    "SLT": lambda a, b: int(sgn(a) < sgn(b)), "SGT": lambda a, b: int(sgn(a) > sgn(b)),
+    "EQ": lambda a, b: int(a == b), "AND": lambda a, b: a & b, "OR": lambda a, b: a | b, "XOR": lambda a, b: a ^ b,
+    "SHL": lambda s, x: (x << s) % M if s < 256 else 0,
+    "SHR": lambda s, x: x >> s if s < 256 else 0,
+    "SAR": lambda s, x: (sgn(x) >> s) % M if s < 256 else (M - 1 if sgn(x) < 0 else 0),
+}
+EVM1 = {"NOT": lambda a: M - 1 - a, "ISZERO": lambda a: int(a == 0)}
+EVM3 = {"ADDMOD": lambda a, b, n: 0 if n == 0 else (a + b) % n, "MULMOD": lambda a, b, n: 0 if n == 0 else (a * b) % n}
+FUNCT_OPCODE = {"+": "ADD", "-": "SUB", "*": "MUL", "/": "DIV", "^": "EXP", "%": "MOD", "and": "AND", "or": "OR",
+                "xor": "XOR", "eq": "EQ", "gt": "GT", "lt": "LT", "shl": "SHL", "shr": "SHR", "sar": "SAR",
+                "addmod": "ADDMOD", "mulmod": "MULMOD"}
+
+
+def run_block(text, stack):
+    """Evaluate a straight-line block of PUSH/DUP/SWAP/POP/arith on a concrete stack (top first).
+    Returns the final stack or None when an unsupported instruction / underflow occurs."""
+    st = list(stack)
+    toks = text.split()
+    i = 0
+    try:
+        while i < len(toks):
+            t = toks[i]
+            i += 1
+            if t == "PUSH0":
+                st.insert(0, 0)
+            elif t == "PUSH":
+                st.insert(0, int(toks[i], 16))
+                i += 1
+            elif re.fullmatch(r"PUSH\d+", t):
+                st.insert(0, int(toks[i], 16))
+                i += 1
+            elif t == "POP":
+                st.pop(0)
+            elif t.startswith("DUP"):
+                st.insert(0, st[int(t[3:]) - 1])
+            elif t.startswith("SWAP"):
+                k = int(t[4:])
+                st[0], st[k] = st[k], st[0]
+            elif t in EVM1:
+                st.insert(0, EVM1[t](st.pop(0)))
+            elif t in EVM2:
+                a, b = st.pop(0), st.pop(0)
+                st.insert(0, EVM2[t](a, b))
+            elif t in EVM3:
+                a, b, c = st.pop(0), st.pop(0), st.pop(0)
+                st.insert(0, EVM3[t](a, b, c))
+            else:
+                return None
+    except (IndexError, ValueError):
+        return None
+    return st
+
+
+def first_difference(old, new, depth):
+    """A concrete stack (from a boundary grid) on which the two blocks leave different stacks."""
+    grid = [0, 1, 2, 5, 255, 256, H - 1, H, M - 2, M - 1]
+    import itertools
+    for vals in itertools.product(grid, repeat=depth):
+        a, b = run_block(old, vals), run_block(new, vals)
+        if a is not None and b is not None and a != b:
+            return {"stack_top_first": [hex(v) for v in vals], "original_result": [hex(v) for v in a],
+                    "emitted_result": [hex(v) for v in b]}
+    return None
+
+
+# ---------------------------------------------------------------------------------------
+# calling the real functions (forked workers; folding of shifts/exp with huge operands hangs)
+
+def _init_real():
+    import sfs_generator.gasol_optimization as go
+    go.init_globals()
+    return go
+
+
+def _reset(go, size_flag):
+    go.size_flag = size_flag
+    go.int_not0 = [-1 + 2 ** 256]
+    go.discount_op = 0
+    go.saved_push = 0
+    go.gas_saved_op = 0
+    go.rule = ""
+    go.rule_applied = False
+    go.already_considered = []
+    go.push_rebuilt = {}
+    go.context_info = {}
+    go.debug = False
+    go.s_dict = {}
+    go.u_dict = {}
+
+
+def _pyres(f):
+    try:
+        v = f()
+    except ZeroDivisionError:
+        return "PyZeroDiv"
+    except OverflowError:
+        return "PyOverflow"
+    except MemoryError:
+        return "memory"
+    if v is None:
+        return "PyNone"
+    if type(v) is int:
+        return "PyOk 0x%x" % v if v >= 0 else "PyOk -0x%x" % -v
+    return "PyOther"
+
+
+def _opnd(x):
+    return x if type(x) is int else ("s(%d)" % x[1])
+
+
+def _real(go, case):
+    kind = case[0]
+    if kind == "ee":
+        _, op, a, b = case
+        return _pyres(lambda: go.evaluate_expression(op, a, b))
+    if kind == "ee3":
+        _, op, a, b, c = case
+        return _pyres(lambda: go.evaluate_expression_ter(op, a, b, c))
+    if kind == "cb":       # compute_binary = fold2 (+ unreduced str(val))
+        _, op, a, b = case
+        _reset(go, False)
+
+        def f():
+            r, e = go.compute_binary((a, b, op), 0)
+            if not r:
+                return None
+            return None if e == "None" else int(e)
+        return _pyres(f)          # str(val) of more than 4300 digits raises ValueError -> "exc ValueError"
+    if kind == "ct":
+        _, op, a, b, c = case
+        _reset(go, False)
+
+        def f():
+            r, e = go.compute_ternary((a, b, c, op))
+            if not r:
+                return None
+            return None if e == "None" else int(e)
+        return _pyres(f)
+    if kind == "cs":
+        _, a, b, e = case
+        r, x = go.check_size((a, b, "+"), e)
+        return "(%s, %s)" % ("true" if r else "false", ("CSNew %d" % x) if type(x) is int else "CSOld")
+    if kind == "nb":
+        return "%d" % go.get_num_bytes_int(case[1])
+    if kind == "un":       # update_unary_func folding of not / iszero
+        _, func, val, sf = case
+        _reset(go, sf)
+        go.update_unary_func(func, "s(9)", str(val), True)    # the caller passes the operand as text
+        r = go.s_dict["s(9)"]
+        return ("int %d" % r) if type(r) is int else "uvar"
+    if kind == "at":
+        _, sf, opc, ops = case
+        _reset(go, sf)
+        r = go.apply_transform({"disasm": opc, "inpt_sk": [_opnd(o) for o in ops]})
+        eff = "%d %d %d %s" % (go.discount_op, go.saved_push, go.gas_saved_op, json.dumps(go.rule))
+        if r is None:
+            return "RuleNone"
+        if type(r) is int and r == -1:
+            return "NoRule"
+        if type(r) is int:
+            return "Replace (OInt %d) %s" % (r, eff)
+        m = re.fullmatch(r"s\((\d+)\)", r)
+        return "Replace (OVar %s) %s" % (m.group(1), eff)
+    raise ValueError(kind)
+
+
+def real_outcomes(cases, timeout=6):
+    res = gasol.pmap(_real, cases, init=_init_real, timeout=timeout, mem_gb=2)
+    out = []
+    for st, v in res:
+        if st == "ok":
+            out.append(v)
+        elif st == "exc":
+            out.append("exc " + v.split(":")[0])
+        else:
+            out.append(st)          # timeout | memory | crash
+    return out
+
+
+# ---------------------------------------------------------------------------------------
+# the generated model, evaluated by the Coq kernel
+
+CASES_HEADER = """From Coq Require Import ZArith Bool String List. Import ListNotations.
+From GV Require Import Ref.PyInt Gen.CheckSize Gen.Fold Gen.LocalRules.
+Open Scope Z_scope.
+Inductive out := OP (r : pyres) | OS (b : bool) (c : cs_expr) | OZ (z : Z) | OU (o : option Z) | ORR (r : rule_res) | OX.
+Definition pyres_eqb (a b : pyres) := match a, b with
+  | PyOk x, PyOk y => Z.eqb x y | PyZeroDiv, PyZeroDiv | PyOverflow, PyOverflow | PyOther, PyOther | PyNone, PyNone => true
+  | _, _ => false end.
+Definition operand_eqb (a b : operand) := match a, b with
+  | OInt x, OInt y => Z.eqb x y | OVar n, OVar m => Nat.eqb n m | _, _ => false end.
+Definition eff_eqb (a b : effects) := Z.eqb (eff_discount_op a) (eff_discount_op b) && Z.eqb (eff_saved_push a) (eff_saved_push b)
+  && Z.eqb (eff_gas_saved_op a) (eff_gas_saved_op b) && String.eqb (eff_rule a) (eff_rule b).
+Definition rr_eqb (a b : rule_res) := match a, b with
+  | NoRule, NoRule | RuleNone, RuleNone => true | Replace o e, Replace o' e' => operand_eqb o o' && eff_eqb e e' | _, _ => false end.
+Definition cs_eqb (a b : cs_expr) := match a, b with CSNew x, CSNew y => Z.eqb x y | CSOld, CSOld | CSNone, CSNone => true | _, _ => false end.
+(* 0 agree, 1 differ, 2 the model declines to compute (PyHuge: result above the resource bound) *)
+Definition agree (m e : out) : Z := match m, e with
+  | OP PyHuge, _ => 2
+  | OP a, OP b => if pyres_eqb a b then 0 else 1
+  | OS b c, OS b' c' => if Bool.eqb b b' && cs_eqb c c' then 0 else 1
+  | OZ a, OZ b => if Z.eqb a b then 0 else 1
+  | OU (Some a), OU (Some b) => if Z.eqb a b then 0 else 1
+  | OU None, OU None => 0
+  | ORR a, ORR b => if rr_eqb a b then 0 else 1
+  | _, _ => 1 end.
+Definition codes (l : list (out * out)) := map (fun p => agree (fst p) (snd p)) l.
+Fixpoint idx (c : Z) (n : nat) (l : list Z) : list nat := match l with [] => [] | x :: t => (if Z.eqb x c then [n] else []) ++ idx c (S n) t end.
+"""
+
+
+def zc(n):
+    return "(%s0x%x)" % ("-" if n < 0 else "", abs(n))
+
+
+def cstr(s):
+    return '"' + s.replace('"', '""') + '"%string'
+
+
+def copnd(o):
+    return "OInt %s" % zc(o) if type(o) is int else "OVar %d" % o[1]
+
+
+def model_expr(case):
+    k = case[0]
+    if k == "ee":
+        return "OP (evaluate_expression default_lim %s %s %s)" % (cstr(case[1]), zc(case[2]), zc(case[3]))
+    if k == "cb":
+        return "OP (fold2 default_lim %s %s %s)" % (cstr(case[1]), zc(case[2]), zc(case[3]))
+    if k == "ee3":
+        return "OP (evaluate_expression_ter default_lim %s %s %s %s)" % (cstr(case[1]), zc(case[2]), zc(case[3]), zc(case[4]))
+    if k == "ct":
+        return "OP (fold3 default_lim %s %s %s %s)" % (cstr(case[1]), zc(case[2]), zc(case[3]), zc(case[4]))
+    if k == "cs":
+        return "(let r := check_size %s %s %s in OS (fst r) (snd r))" % (zc(case[1]), zc(case[2]), zc(case[3]))
+    if k == "nb":
+        return "OZ (get_num_bytes_int %s)" % zc(case[1])
+    if k == "un":
+        _, func, val, sf = case
+        if func == "not":
+            return "OU (if %s || fold_not_size_ok %s then Some (fold_not %s) else None)" % ("false" if sf else "true", zc(val), zc(val))
+        return "OU (Some (fold_iszero %s))" % zc(val)
+    if k == "at":
+        _, sf, opc, ops = case
+        return "ORR (apply_transform %s %s [%s])" % ("true" if sf else "false", cstr(opc), "; ".join(copnd(o) for o in ops))
+    raise ValueError(k)
+
+
+def expected_expr(case, real):
+    k = case[0]
+    if real in ("timeout", "memory", "crash") or real.startswith("exc "):
+        return "OX"
+    if k in ("ee", "cb", "ee3", "ct"):
+        if real.startswith("PyOk "):
+            return "OP (PyOk %s)" % zc(int(real[5:], 16))
+        return "OP %s" % real
+    if k == "cs":
+        m = re.fullmatch(r"\((true|false), (CSOld|CSNew (-?\d+))\)", real)
+        return "OS %s %s" % (m.group(1), "CSOld" if m.group(2) == "CSOld" else "(CSNew %s)" % zc(int(m.group(3))))
+    if k == "nb":
+        return "OZ %s" % zc(int(real))
+    if k == "un":
+        return "OU None" if real == "uvar" else "OU (Some %s)" % zc(int(real[4:]))
+    if k == "at":
+        if real in ("NoRule", "RuleNone"):
+            return "ORR %s" % real
+        m = re.fullmatch(r"Replace \((OInt (-?\d+)|OVar (\d+))\) (-?\d+) (-?\d+) (-?\d+) (.*)", real)
+        o = "OInt %s" % zc(int(m.group(2))) if m.group(2) is not None else "OVar %s" % m.group(3)
+        return "ORR (Replace (%s) (mkEff %s %s %s %s))" % (o, zc(int(m.group(4))), zc(int(m.group(5))), zc(int(m.group(6))), cstr(json.loads(m.group(7))))
+    raise ValueError(k)
+
+
+def model_compare(cases, reals, chunk=400, timeout=600):
+    """Returns (list of indices that differ, list of indices where the model says PyHuge, errors)."""
+    shutil.rmtree(CASEDIR, ignore_errors=True)
+    os.makedirs(CASEDIR)
+    names = []
+    for ci in range(0, len(cases), chunk):
+        name = "c03_cases_%03d" % (ci // chunk)
+        pairs = ["(%s,\n  %s)" % (model_expr(c), expected_expr(c, r)) for c, r in zip(cases[ci:ci + chunk], reals[ci:ci + chunk])]
+        body = CASES_HEADER + "Definition cases : list (out * out) := [\n" + ";\n".join(pairs) + "].\n" \
+            "Definition cs := Eval vm_compute in codes cases.\n" \
+            "Eval vm_compute in (length cs, idx 1 0 cs, idx 2 0 cs).\n"
+        with open(os.path.join(CASEDIR, name + ".v"), "w") as fh:
+            fh.write(body)
+        names.append((name, ci))
+
+    def one(nc):
+        name, ci = nc
+        rc, out = common.sh("ulimit -s unlimited 2>/dev/null; timeout %d coqc -Q %s GV %s.v" % (timeout, common.COQ, name),
+                            cwd=CASEDIR, timeout=timeout + 30)
+        return name, ci, rc, out
+    differ, huge, errors = [], [], []
+    with cf.ThreadPoolExecutor(max_workers=common.NCPU) as ex:
+        for name, ci, rc, out in ex.map(one, names):
+            m = re.search(r"=\s*\((\d+)%nat,\s*(\[.*?\]),\s*(\[.*?\])\)", out, re.S)
+            if rc != 0 or not m:
+                errors.append((name, out[-600:]))
+                continue
+            n = min(chunk, len(cases) - ci)
+            if int(m.group(1)) != n:
+                errors.append((name, "evaluated %s cases, expected %d" % (m.group(1), n)))
+            differ += [ci + int(x) for x in re.findall(r"(\d+)%nat", m.group(2))]
+            huge += [ci + int(x) for x in re.findall(r"(\d+)%nat", m.group(3))]
+    return sorted(differ), sorted(huge), errors
+
+
+# ---------------------------------------------------------------------------------------
+# case generation
+
+GRID = [0, 1, 2, 3, 31, 32, 255, 256, 2 ** 64, 2 ** 128, 2 ** 160 - 1, H - 1, H, H + 1, M - 2, M - 1]
+POW_OPS = {"^", "shl", "shr", "sar"}
+
+
+def risky(case):
+    """Scheduling heuristic only: calls that are expected not to return on the unchanged tree."""
+    k = case[0]
+    if k in ("ee", "cb") and case[1] in POW_OPS:
+        if case[1] == "^":
+            return case[2] > 1 and case[3] * max(1, case[2].bit_length() - 1) > 2 ** 27
+        return case[2] > 2 ** 27
+    return False
+
+
+def rand_word(rnd):
+    c = rnd.random()
+    if c < 0.3:
+        return rnd.getrandbits(256)
+    if c < 0.5:
+        return rnd.getrandbits(rnd.choice([8, 16, 53, 54, 64, 128, 160, 255]))
+    if c < 0.7:
+        return rnd.choice(GRID)
+    if c < 0.85:
+        return M - 1 - rnd.getrandbits(rnd.choice([1, 8, 64]))
+    return H + rnd.getrandbits(rnd.choice([1, 8, 200])) - rnd.getrandbits(4)
+
+
+def gen_cases(meta, rnd, tier):
+    thorough = tier == "thorough"
+    cases = []
+    ops2 = list(meta["folded2"])
+    ee_ops = sorted({b["op"] for b in meta["fold_branches"] if b["arity"] == 2})
+    for op in ops2:
+        for a in GRID:
+            for b in GRID:
+                cases.append(("cb", op, a, b))
+    for op in ["slt", "sgt", "sdiv", "byte", "signextend", "nosuchop"]:      # not folded
+        for a in (GRID if thorough else GRID[::5]):
+            for b in (GRID if thorough else GRID[::5]):
+                cases.append(("cb", op, a, b))
+    nrand = 400 if thorough else 60
+    for op in ops2:
+        for _ in range(nrand):
+            a, b = rand_word(rnd), rand_word(rnd)
+            if op in ("shl", "shr", "sar") and rnd.random() < 0.7:
+                a = rnd.randrange(0, 300)
+            if op == "^" and rnd.random() < 0.7:
+                b = rnd.randrange(0, 70)
+            cases.append(("cb", op, a, b))
+    for op in ee_ops + ["nosuchop"]:
+        for _ in range(nrand if thorough else 30):
+            a, b = rnd.choice(GRID), rand_word(rnd)
+            if op in POW_OPS and rnd.random() < 0.8:
+                a = rnd.randrange(0, 300)
+                if op == "^":
+                    a, b = b, a % 70
+            cases.append(("ee", op, a, b))
+    g3 = [0, 1, 2, 255, 2 ** 128, H, M - 2, M - 1] if thorough else [0, 1, 2, H, M - 2, M - 1]
+    ee3_ops = sorted({b["op"] for b in meta["fold_branches"] if b["arity"] == 3})
+    for a in g3:
+        for b in g3:
+            for c in g3:
+                for op in meta["folded3"] + ["nosuchop"]:
+                    cases.append(("ct", op, a, b, c))
+                for op in ee3_ops:
+                    cases.append(("ee3", op, a, b, c))
+    for _ in range(nrand):
+        cases.append(("ee3", rnd.choice(ee3_ops), rand_word(rnd), rand_word(rnd), rnd.choice([0, 1, rand_word(rnd)])))
+    for a in GRID:
+        for b in GRID:
+            for e in ((0, a + b, (a * b) % M, a * b + 1, M - 1, M, rand_word(rnd)) if thorough else (a + b, a * b + 1, M - 1, rand_word(rnd))):
+                cases.append(("cs", a, b, e))
+    for v in GRID + [M, M + 1, 2 ** 300, -1, -2, -H, -M + 1] + [2 ** (8 * k) for k in range(1, 33)] + [2 ** (8 * k) - 1 for k in range(1, 33)]:
+        cases.append(("nb", v))
+    for v in GRID + [rand_word(rnd) for _ in range(40)]:
+        for sf in (False, True):
+            cases.append(("un", "not", v, sf))
+        cases.append(("un", "iszero", v, False))
+    opnds = [("var", 0), ("var", 1), 0, 1, 2, 5, M - 1] + ([M - 2] if thorough else [])
+    opcodes = sorted({c for g in meta["groups"] for c in g["opcodes"]} | set(meta["submitted"]) | {"SAR", "BYTE", "SMOD"})
+    for opc in opcodes:
+        ar = gen_fold.OPCODE_ARITY.get(opc, 2)
+        for sf in (False, True):
+            if ar == 1:
+                for o in opnds + [rand_word(rnd) for _ in range(6)] + [2 ** (8 * k) for k in (1, 16, 31)]:
+                    cases.append(("at", sf, opc, [o]))
+            else:
+                for o0 in opnds:
+                    for o1 in opnds:
+                        cases.append(("at", sf, opc, [o0, o1]))
+                for _ in range(6):
+                    cases.append(("at", sf, opc, [rnd.choice(opnds + [rand_word(rnd)]), rnd.choice(opnds + [rand_word(rnd)])]))
+    rk = [c for c in cases if risky(c)]
+    # each hang-prone call costs a time-out plus a worker restart: sample them
+    keep = set(map(id, rnd.sample(rk, min(len(rk), 160 if thorough else 16))))
+    return [c for c in cases if not risky(c) or id(c) in keep], len(rk)
+
+
+# ---------------------------------------------------------------------------------------
+# findings: every refuted obligation is replayed on the real code
+
+def hx(v):
+    return "%x" % v
+
+
+def block_for(ob, w):
+    """Minimal block instantiating the refuted obligation's witness (first operand = top of stack)."""
+    if ob["kind"] == "fold":
+        opcode = FUNCT_OPCODE[ob["op"]]
+        vals = [w["a"], w["b"]] + ([w["c"]] if ob["arity"] == 3 else [])
+        return " ".join("PUSH %s" % hx(v) for v in reversed(vals)) + " " + opcode, 0
+    ops = w["ops"]
+    opcode = ob["opcode"]
+    if len(ops) == 1:
+        return ("PUSH %s %s" % (hx(int(ops[0][1])), opcode), 0) if ops[0][0] == "int" else (opcode, 1)
+    (k0, v0), (k1, v1) = ops
+    if k0 == "int" and k1 == "int":
+        return "PUSH %s PUSH %s %s" % (hx(int(v1)), hx(int(v0)), opcode), 0
+    if k0 == "int":
+        return "PUSH %s %s" % (hx(int(v0)), opcode), 1
+    if k1 == "int":
+        return "PUSH %s SWAP1 %s" % (hx(int(v1)), opcode), 1
+    return ("DUP1 %s" % opcode, 1) if v0 == v1 else (opcode, 2)
+
+
+def _pipeline(params, text):
+    return gasol.optimize_block_text(text, params)
+
+
+def run_blocks(texts, opts=("-greedy",), timeout=25):
+    res = gasol.pmap(_pipeline, texts, init=gasol.setup_process, initargs=(list(opts),), timeout=timeout)
+    out = []
+    for t, (st, v) in zip(texts, res):
+        if st == "ok":
+            b = v[0]
+            out.append({"block": t, "status": "ok", "emitted": b["new"], "candidate": b["cand"], "checker_says_equal": b["eq"],
+                        "rules": b["rules"]})
+        else:
+            out.append({"block": t, "status": st, "detail": str(v)[:200]})
+    return out
+
+
+def function_replay(ob, w):
+    """The call of the real function that exhibits the refuted obligation, and the EVM value."""
+    if ob["kind"] == "fold":
+        vals = [w["a"], w["b"]] + ([w["c"]] if ob["arity"] == 3 else [])
+        case = (("cb" if ob["arity"] == 2 else "ct"), ob["op"], *vals)
+        opcode = FUNCT_OPCODE[ob["op"]]
+        ref = (EVM2 if ob["arity"] == 2 else EVM3)[opcode](*vals)
+        call = "%s((%s, %r), ...)" % ("compute_binary" if ob["arity"] == 2 else "compute_ternary", ", ".join(map(str, vals)), ob["op"])
+        return case, ref, call
+    ops = [int(o[1]) if o[0] == "int" else ("var", int(o[1])) for o in w["ops"]]
+    case = ("at", bool(w.get("sf")), ob["opcode"], ops)
+    rho = [int(x) for x in w["rho"]]
+    vals = [o if type(o) is int else rho[o[1]] for o in ops]
+    ref = {1: EVM1, 2: EVM2, 3: EVM3}[len(ops)][ob["opcode"]](*vals)
+    call = "apply_transform({'disasm': %r, 'inpt_sk': %r}) with s(k) = %s" % (ob["opcode"], [_opnd(o) for o in ops], rho)
+    return case, ref, call
+
+
+def refuted_on_real_code(ob, w, real, ref):
+    """Does the real function's outcome exhibit the defect the refutation lemma states?"""
+    if ob["kind"] == "fold":
+        if ob["aspect"] == "raises":
+            return not real.startswith("PyOk ")
+        return real.startswith("PyOk ") and int(real[5:], 16) != ref
+    m = re.fullmatch(r"Replace \((OInt (-?\d+)|OVar (\d+))\) .*", real)
+    if not m:
+        return False
+    rho = [int(x) for x in w["rho"]]
+    val = int(m.group(2)) if m.group(2) is not None else rho[int(m.group(3))]
+    return val != ref
+
+
+def finding_key(ob):
+    if ob["kind"] == "fold":
+        return {"kind": "fold", "op": ob["op"], "aspect": ob["aspect"]}
+    return {"kind": "rule", "branch": ob["branch"]}
+
+
+def report_findings(run, obs, known, override, tag):
+    """Replay every obligation that is refuted (listed and not obsolete) and report it."""
+    todo = [ob for ob in obs if ob["id"] in known and override.get(ob["id"]) != "sound"]
+    frs = [function_replay(ob, known[ob["id"]]["witness"]) for ob in todo]
+    reals = real_outcomes([f[0] for f in frs], timeout=8)
+    blocks = [block_for(ob, known[ob["id"]]["witness"]) for ob in todo]
+    bres = run_blocks([b[0] for b in blocks])
+    for ob, (case, ref, call), real, (btxt, depth), br in zip(todo, frs, reals, blocks, bres):
+        w = known[ob["id"]]["witness"]
+        confirmed = refuted_on_real_code(ob, w, real, ref)
+        diff = None
+        if br.get("status") == "ok" and br["emitted"] != btxt:
+            diff = first_difference(btxt, br["emitted"], depth)
+        rep = {"obligation": ob["id"], "refutation_lemma": ob["alt"], "why": known[ob["id"]].get("why"),
+               "function_call": call, "real_outcome": real, "evm_reference_value": hex(ref),
+               "confirmed_on_real_function": confirmed, "block": br, "block_differs_on": diff,
+               "how": "GASOL_REPO=%s ./check C03 --replay <this file>" % common.REPO}
+        if not confirmed:
+            run.report({"kind": "model-mismatch", "obligation": ob["id"]},
+                       "the generated model refutes %s but the real function does not misbehave on the witness (%s -> %s)" % (ob["id"], call, real),
+                       rep, found_input=False)
+            continue
+        what = "%s: %s gives %s, EVM value %s" % (ob["id"].replace("_sound", "").replace("_total", ""), call, real, hex(ref))
+        if diff:
+            what += "; block `%s` is rewritten to `%s`, different on stack %s" % (btxt, br["emitted"], diff["stack_top_first"])
+        elif br.get("status") != "ok":
+            what += "; block `%s`: pipeline %s" % (btxt, br.get("status"))
+        run.report(finding_key(ob), what, rep, found_input=True)
+        run.cov["distribution"].setdefault("findings_" + tag, []).append(
+            {"id": ob["id"], "real": real[:60], "block": btxt, "emitted": br.get("emitted", br.get("status")), "differs": bool(diff)})
+
+
+def opmap_check(run):
+    """ir_block.translateOpcodes0 maps SMOD to the operator '%' of MOD (so SMOD is folded and re-emitted as MOD)."""
+    a, b = M - 5, 3                      # sgn(a) = -5: SMOD = -(5 mod 3) = -2, MOD = (2^256-5) mod 3
+    blocks = ["PUSH %s PUSH %s SMOD" % (hx(b), hx(a)), "PUSH %s SMOD PUSH %s SMOD" % (hx(b), hx(b))]
+    res = run_blocks(blocks)
+    for t, br in zip(blocks, res):
+        depth = 0 if t.startswith("PUSH 3 PUSH") else 1
+        if br.get("status") == "ok" and br["emitted"] != t:
+            diff = first_difference(t, br["emitted"], depth)
+            if diff:
+                run.report({"kind": "opmap", "op": "SMOD"},
+                           "SMOD is translated to the internal operator '%%' of MOD: block `%s` becomes `%s` (differs on stack %s)" % (t, br["emitted"], diff["stack_top_first"]),
+                           {"block": br, "block_differs_on": diff, "how": "run the block with gasol_asm.py -bl -greedy"}, found_input=True)
+                return True
+    run.cov["distribution"]["opmap_SMOD"] = [r.get("emitted", r.get("status")) for r in res]
+    return False
+
+
+def spec_level(run):
+    """HOOK (coordinator): spec-level comparison rules on / rules off with the spec_of_block validator and
+    the ~35 context rules of apply_cond_transformation.  Intentionally does nothing yet."""
+    return None
+
+
+# ---------------------------------------------------------------------------------------
+
+STATE = {}
+
+
+def _gen(run, override=None):
+    files, meta, fobs, robs = gen_fold.generate(override=override)
+    STATE.update(meta=meta, fobs=fobs, robs=robs)
+    if meta["stale_known_unsound"]:
+        run.log("gen/known_unsound.json names obligations that no longer exist (remove them):", meta["stale_known_unsound"])
+        run.notes.append("stale known_unsound entries: %s" % meta["stale_known_unsound"])
+
+
+def search_failing_input(run, ob):
+    """A new (unlisted) obligation does not prove: look for operands on which the REAL function
+    differs from the EVM reference."""
+    rnd = random.Random(run.seed)
+    vals = GRID + [rand_word(rnd) for _ in range(40)]
+    if ob["kind"] == "fold":
+        opcode = FUNCT_OPCODE.get(ob["op"])
+        if opcode is None:
+            return None
+        k = "cb" if ob["arity"] == 2 else "ct"
+        cases = [(k, ob["op"], a, b) for a in vals for b in vals] if ob["arity"] == 2 else \
+                [(k, ob["op"], a, b, c) for a in vals[:12] for b in vals[:12] for c in vals[:12]]
+        cases = [c for c in cases if not risky(c)]
+        reals = real_outcomes(cases, timeout=6)
+        for c, r in zip(cases, reals):
+            ref = (EVM2 if ob["arity"] == 2 else EVM3)[opcode](*c[2:])
+            bad = (not r.startswith("PyOk ")) if ob["aspect"] == "raises" else (r.startswith("PyOk ") and int(r[5:], 16) != ref)
+            if bad:
+                return {"call": list(map(str, c)), "real_outcome": r, "evm_reference_value": hex(ref)}
+        return None
+    opnds = [("var", 0), ("var", 1)] + vals[:16]
+    ar = ob["arity"]
+    import itertools
+    cases = [("at", sf, ob["opcode"], list(ops)) for sf in (False, True) for ops in itertools.product(opnds, repeat=ar)]
+    reals = real_outcomes(cases, timeout=6)
+    for c, r in zip(cases, reals):
+        m = re.fullmatch(r"Replace \((OInt (-?\d+)|OVar (\d+))\) .*", r)
+        if not m:
+            continue
+        for rho in itertools.product([0, 1, 5, H, M - 1], repeat=2):
+            v = [o if type(o) is int else rho[o[1]] for o in c[3]]
+            ref = {1: EVM1, 2: EVM2, 3: EVM3}[ar][ob["opcode"]](*v)
+            val = int(m.group(2)) if m.group(2) is not None else rho[int(m.group(3))]
+            if val != ref:
+                return {"call": "apply_transform(%r, %r) size_flag=%s" % (c[2], [_opnd(o) for o in c[3]], c[1]), "returns": r,
+                        "variables": {"s(0)": hex(rho[0]), "s(1)": hex(rho[1])}, "evm_reference_value": hex(ref)}
+    return None
+
+
+def proof_with_fallback(run):
+    """Proof stage; when the build breaks, classify every obligation on its own."""
+    ok = common.proof_stage(run, "Props/C03.v", gen=_gen)
+    if ok or run.proof_broken[0] != "build":
+        return ok, {}
+    meta, obs = STATE["meta"], STATE["fobs"] + STATE["robs"]
+    known = meta["known"]
+    run.log("build broke at %s: classifying the %d obligations one by one" % (run.proof_broken[1], len(obs)))
+    res = classify(obs, known, ["sound", "refuted"])
+    override, new_failures, undecided = {}, [], []
+    for ob in obs:
+        r = res.get(ob["id"], {})
+        snd = r.get("sound", (False, ""))[0]
+        if ob["id"] in known:
+            if r.get("refuted", (False, ""))[0]:
+                continue
+            if snd:
+                override[ob["id"]] = "sound"
+                msg = "known_unsound entry obsolete: %s now PROVES on %s; remove it from gen/known_unsound.json and mark the finding fixed in known/C03.json" % (ob["id"], common.REPO)
+                print("KNOWN-UNSOUND-ENTRY-OBSOLETE: " + msg, flush=True)
+                run.notes.append(msg)
+            else:
+                undecided.append(ob)
+        elif not snd:
+            new_failures.append((ob, r.get("sound", (False, ""))[1]))
+    run.cov.setdefault("distribution", {})["classification"] = {
+        "obsolete_known_unsound": sorted(override), "new_failures": [o["id"] for o, _ in new_failures],
+        "undecided": [o["id"] for o in undecided]}
+    for ob, tail in new_failures:
+        wit = search_failing_input(run, ob)
+        run.report({**finding_key(ob), "new": True},
+                   "obligation %s (line %s of the source) no longer proves%s" % (ob["id"], ob.get("line", "?"), "" if wit else "; proof script or rule changed"),
+                   {"obligation": ob["id"], "statement": ob["sound"], "coq_output": tail, "failing_input": wit,
+                    "how": "cd /verif/coq && coqc -Q . GV Gen/%sObligations.v" % ("Fold" if ob["kind"] == "fold" else "LocalRules")},
+                   found_input=wit is not None)
+    for ob in undecided:
+        wit = search_failing_input(run, ob)
+        run.report({**finding_key(ob), "witness_stale": True},
+                   "listed obligation %s: neither the lemma nor the refutation by the listed witness compiles" % ob["id"],
+                   {"obligation": ob["id"], "failing_input": wit}, found_input=wit is not None)
+    if new_failures or undecided:
+        return False, override
+    if override:
+        run.cov["obligations"] = 0
+        run.cov["discharged"] = 0
+        run.proof_broken = None
+        ok = common.proof_stage(run, "Props/C03.v", gen=lambda r: _gen(r, override))
+        return ok, override
+    # build broke elsewhere (hand-written file)
+    return False, override
+
+
+def check(run):
+    run.cov["distribution"] = {}
+    run.cov["trusted_base"] += [
+        "gen/gen_fold.py (Python ast -> Gallina translator, fail closed; cross-checked by the differential run)",
+        "coq/Ref/PyInt.v (CPython int semantics incl. correctly rounded int/int -> binary64), coq/Ref/Word.v (EVM words)",
+        "hints: utils.number_encoding_size and utils.all_integers are modelled by hand (AST fingerprint checked)",
+        "compute_binary/compute_ternary are not translated: shape assertions (argument order, str(val), guards) + differential run",
+    ]
+    ok, override = proof_with_fallback(run)
+    if not ok:
+        pb = run.proof_broken
+        if pb and pb[0] == "generation":
+            run.report({"kind": "generation"}, "translator failed closed: " + str(pb[1])[:300],
+                       {"error": pb[1], "how": "PYTHONPATH=/verif GASOL_REPO=%s /venv/bin/python -m gen.gen_fold" % common.REPO}, found_input=False)
+            return
+        if not run.violations:
+            run.report({"kind": "proof-broken", "where": str(pb[1]) if pb else "?"}, "proof stage failed: %s" % (pb,),
+                       {"proof_broken": pb}, found_input=False)
+    meta = STATE["meta"]
+    known = meta["known"]
+    # ---- differential check: real functions vs generated definitions under vm_compute
+    okb, out = common.coq_make(["Gen/Fold.vo", "Gen/LocalRules.vo", "Gen/CheckSize.vo"])
+    if not okb:
+        run.report({"kind": "gen-build"}, "generated models do not compile", {"out": out[-1500:]}, found_input=False)
+        return
+    rnd = random.Random(run.seed)
+    cases, nrisky = gen_cases(meta, rnd, run.tier)
+    corpus = load_corpus()
+    cases = corpus + cases
+    run.log("differential: %d cases (%d from corpus; %d hang-prone calls in the grid, %d kept)" % (
+        len(cases), len(corpus), nrisky, sum(1 for c in cases if risky(c))))
+    reals = real_outcomes(cases, timeout=6)
+    differ, huge, errors = model_compare(cases, reals)
+    retry = [i for i in differ if reals[i] in ("timeout", "crash", "memory")]
+    if retry:      # a loaded machine can time out a call the model computes: ask again with a long timeout
+        again = real_outcomes([cases[i] for i in retry], timeout=60)
+        for i, r in zip(retry, again):
+            reals[i] = r
+        d2, h2, e2 = model_compare([cases[i] for i in retry], again)
+        differ = sorted((set(differ) - set(retry)) | {retry[j] for j in d2})
+        errors += e2
+    for name, e in errors:
+        run.report({"kind": "cases-file", "file": name}, "cases file failed: " + e[-200:], {"output": e}, found_input=False)
+    dist, fired = {}, {}
+    for c, r in zip(cases, reals):
+        cls = r.split(" ")[0] if not r.startswith("(") else r.split(",")[0][1:]
+        dist["%s:%s" % (c[0], cls)] = dist.get("%s:%s" % (c[0], cls), 0) + 1
+        if c[0] == "at" and r.startswith("Replace"):
+            nm = "%s:%s" % (c[2], json.loads(r.split(" ", 6)[6]))
+            fired[nm] = fired.get(nm, 0) + 1
+    huge_real = {}
+    for i in huge:
+        huge_real[reals[i].split(" ")[0]] = huge_real.get(reals[i].split(" ")[0], 0) + 1
+    run.cov["evaluations"] = len(cases)
+    nontriv = {(c[0],) + tuple(map(str, c[1:])) for c, r in zip(cases, reals)
+               if r not in ("NoRule", "PyNone", "RuleNone") and not r.startswith("(false")}
+    run.cov["distinct_nontrivial"] = len(nontriv)
+    run.cov["rule"] = ("calls of the real evaluate_expression[_ter] / compute_binary / compute_ternary / check_size / get_num_bytes_int / "
+                       "update_unary_func / apply_transform on the boundary grid {0,1,2,3,31,32,255,256,2^64,2^128,2^160-1,2^255-1,2^255,2^255+1,2^256-2,2^256-1}^2 "
+                       "x all operators, all operand shapes (var/var same, var/var different, const/var, var/const, const/const with 0,1,2,5,2^256-1,2^256-2) x "
+                       "size_flag, plus PRNG words; compared with the generated definitions evaluated by vm_compute. "
+                       "non-trivial = a fold or rule actually produced a value; distinct by (function, arguments)")
+    run.cov["distribution"].update({"by_function_and_outcome": dist, "rule_branches_fired": fired,
+                                    "branches_fired": len(fired), "branches_total": len(STATE["robs"]),
+                                    "model_declined_PyHuge": len(huge), "real_outcome_when_model_declined": huge_real,
+                                    "model_vs_real_disagreements": len(differ)})
+    for i in differ[:20]:
+        run.report({"kind": "model-vs-code", "function": cases[i][0], "op": str(cases[i][1 if cases[i][0] != "at" else 2])},
+                   "generated model and real function disagree on %s: real %s" % (str(cases[i])[:160], reals[i][:120]),
+                   {"case": [str(x) for x in cases[i]], "real": reals[i], "model_term": model_expr(cases[i]),
+                    "how": "evaluate the term with vm_compute after From GV Require Import Ref.PyInt Gen.Fold Gen.LocalRules Gen.CheckSize"},
+                   found_input=True)
+    for c, r in list(zip(cases, reals))[len(corpus):len(corpus) + 4]:
+        run.add_sample({"case": [str(x)[:80] for x in c], "real": r[:100]})
+    for c, r in zip(cases, reals):
+        if c[0] == "at" and r.startswith("Replace"):
+            run.add_sample({"case": [str(x)[:80] for x in c], "real": r[:100]})
+    run.log("differential: %d disagreements, model declined (PyHuge) on %d, %d rule branches (opcode:rule) fired" % (len(differ), len(huge), len(fired)))
+    # ---- findings: replay of every refuted obligation on the real code
+    report_findings(run, STATE["fobs"] + STATE["robs"], known, override, "refuted")
+    opmap_check(run)
+    spec_level(run)
+    shutil.rmtree(OBDIR, ignore_errors=True)
+    shutil.rmtree(CASEDIR, ignore_errors=True)
+
+
+def load_corpus():
+    """corpus/C03/*.json: {"cases": [["cb", "+", 1, 2], ["at", false, "SHL", [0, ["var", 0]]], ...]}"""
+    d = os.path.join(common.VERIF, "corpus", "C03")
+    res = []
+    if os.path.isdir(d):
+        for f in sorted(os.listdir(d)):
+            if f.endswith(".json"):
+                with open(os.path.join(d, f)) as fh:
+                    for c in json.load(fh)["cases"]:
+                        if c[0] == "at":
+                            res.append(("at", bool(c[1]), c[2], [tuple(o) if isinstance(o, list) else o for o in c[3]]))
+                        else:
+                            res.append(tuple(c))
+    return res
+
+
+def replay(run, path):
+    with open(path) as fh:
+        d = json.load(fh)
+    rep = d.get("replay", d)
+    print(json.dumps(d.get("key"), sort_keys=True))
+    rc = 0
+    blk = rep.get("block", {})
+    if isinstance(blk, dict) and blk.get("block"):
+        now = run_blocks([blk["block"]])[0]
+        print("block   :", blk["block"])
+        print("emitted :", now.get("emitted", now.get("status")))
+        depth = 2
+        diff = first_difference(blk["block"], now["emitted"], depth) if now.get("status") == "ok" and now["emitted"] != blk["block"] else None
+        if diff:
+            print("DIFFERS on stack (top first)", diff["stack_top_first"], ": original", diff["original_result"], "emitted", diff["emitted_result"])
+            rc = 1
+        elif now.get("status") != "ok":
+            print("pipeline:", now.get("status"), now.get("detail", ""))
+            rc = 1
+    if rep.get("obligation") and "function_call" in rep:
+        _gen(run)
+        obs = {o["id"]: o for o in STATE["fobs"] + STATE["robs"]}
+        known = STATE["meta"]["known"]
+        ob = obs.get(rep["obligation"])
+        if ob is not None and ob["id"] in known:
+            case, ref, call = function_replay(ob, known[ob["id"]]["witness"])
+            real = real_outcomes([case], timeout=8)[0]
+            print("call    :", call)
+            print("real    :", real)
+            print("EVM     :", hex(ref))
+            if refuted_on_real_code(ob, known[ob["id"]]["witness"], real, ref):
+                rc = 1
+    if rep.get("case"):
+        print("case:", rep["case"], "recorded real outcome:", rep.get("real"))
+    print("REPRODUCED" if rc else "not reproduced")
+    return rc
